@@ -830,6 +830,13 @@ fn enc_trees<S: Clone + Eq + Sync + Send + std::fmt::Debug>(
                     (Ok(()), Some((at, what))) => Err(format!("writer failed with {what} at byte {at} but the wrapper returned Ok(()) - error swallowed")),
                     (Err(e), None) => Err(format!("writer accepted every byte without failure but the wrapper returned Err({e})")),
                     (Err(_), Some((_, what))) => {
+                        // after a reported failure the encrypter is in a DEFINED state: as after the raw operation (the header
+                        // was encrypted, the unchanged library's behaviour) or untouched (rolled back completely) - never a mixture
+                        let as_raw = o == after_raw || next_bytes_equal(&o, &after_raw, &ops.raw);
+                        let untouched = o == start || next_bytes_equal(&o, &start, &ops.raw);
+                        if !as_raw && !untouched {
+                            return Err("after a failed write the encrypter is neither in the state after the raw operation nor in the state before the call".into());
+                        }
                         stats.write_fail_leaves.fetch_add(1, Ordering::Relaxed);
                         Ok(format!("err:{what}"))
                     }
@@ -924,12 +931,35 @@ fn dec_values<S: Clone + Eq>(
     let mut typed = fresh();
     let mut raw = fresh();
     let mut via_read = fresh();
+    let mut mixed = fresh();
     let mut rs = ref_fresh();
     let mut n = 0u64;
     for &(size, op) in values {
         let plain = ops.kind.layout(size, op);
         let mut wire = plain.clone();
         rs.enc(&mut wire);
+        // one object driven through a DIFFERENT entry point for every header (typed, reader, raw, typed, ...): a flag or
+        // stash one entry point leaves behind for itself must not confuse the next one
+        {
+            let got = match n % 3 {
+                0 => Some((ops.typed)(&mut mixed, &wire)),
+                1 => (ops.read)(&mut mixed, &mut std::io::Cursor::new(&wire[..])).ok(),
+                _ => {
+                    let mut w = wire.clone();
+                    (ops.raw)(&mut mixed, &mut w);
+                    Some(ops.kind.parse(&w))
+                }
+            };
+            if got != Some((size, op)) {
+                report.violation(Violation {
+                    signature: format!("C11|{}|entry-points-mixed-on-one-object", ops.name),
+                    scenario: "value-sweep-decrypt".into(),
+                    replay: json!({"session_key": hex(key), "size": size, "opcode": op, "headers_before": n, "entry_point": (["typed", "reader", "raw"][(n % 3) as usize])}),
+                    detail: json!({"decoded": format!("{got:x?}"), "sent": format!("{:x?}", (size, op)), "note": "the headers before this one went through the other entry points of the same object"}),
+                });
+                return;
+            }
+        }
         // the reader-based entry point decodes every value the typed one decodes (no value is "invalid data")
         {
             let mut cur = std::io::Cursor::new(&wire[..]);
